@@ -38,12 +38,12 @@ out = ["# Seeded property-breaking changes", "",
 for r in rows:
     out.append("| %s | %s | %s | %s | %s | %s |" % r)
 def rnd(sid):
-    for k in (2, 3, 4, 5):
+    for k in (2, 3, 4, 5, 7):
         if "-r%d-" % k in sid:
             return k
     return 1
 out += [""]
-for k in (1, 2, 3, 4, 5):
+for k in (1, 2, 3, 4, 5, 7):
     rr = [r for r in rows if rnd(r[0]) == k]
     if not rr:
         continue
